@@ -651,7 +651,44 @@ def r17(ctx):
     ctx.floor(R, 1)
 
 
+def r18(ctx):
+    R = "C06-R18"
+    ctx.rule(R, "the retransmission countdown is driven by progress only: in handle_established `egress_since_ack` is re-armed only where "
+                "`snd_una` advances (an ACK that acknowledges nothing new - any segment of a busy reverse direction - must not postpone the "
+                "retransmission of a lost segment for ever); and Kernel::egress runs check_retx before the segmentation loop, so a rewind is "
+                "re-emitted in the same pass (a rewind left for the next pass makes every ACK that arrives in between look unacceptable)")
+    b = ctx.w.bodies.get("turmoil_net::kernel::tcp::handle_established")
+    if b:
+        TC = "turmoil_net::kernel::socket::Tcb::"
+        adv = [bb for bb, i, s2 in b.all_stmts() if i != "term" and place_last_field(s2["p"]) == TC + "snd_una"]
+        rearm = [(bb, s2) for bb, i, s2 in b.all_stmts() if i != "term" and place_last_field(s2["p"]) == TC + "egress_since_ack"]
+        k = 0
+        for bb, s2 in rearm:
+            ok = bool(adv) and any(bb == a or b.dominated_by_block(bb, a) for a in adv)
+            ctx.inst(R, f"handle_established:countdown-rearmed-only-on-progress#{k}", ok, s2["s"], "the countdown restarts where snd_una advances" if ok else
+                     "handle_established re-arms egress_since_ack for an ACK that acknowledges nothing new: while the peer keeps sending (a heartbeat, its own data) a lost segment is never "
+                     "retransmitted and never times out - one dropped packet stalls the direction for good")
+            k += 1
+        if not rearm and ctx.strict:
+            ctx.bad(R, "handle_established:countdown", b.span, "no write of egress_since_ack in handle_established: re-derive")
+    e = ctx.w.bodies.get("turmoil_net::kernel::Kernel::egress")
+    if e:
+        cr = [bb for bb, t in e.calls("turmoil_net::kernel::tcp::check_retx")]
+        sa = [bb for bb, t in e.calls("turmoil_net::kernel::tcp::segment_all")]
+        ok = bool(cr) and bool(sa) and all(e.dominated_by_any(x, blocks=cr) for x in sa)
+        ctx.inst(R, "egress:retx-sweep-before-segmentation", ok, e.term(cr[0])["s"] if cr else e.span, "a rewound connection is re-segmented in the same egress pass" if ok else
+                 "Kernel::egress segments before it sweeps for retransmissions: the rewind (snd_nxt = snd_una) waits a whole pass for its re-emission, ACKs that arrive in between "
+                 "find nothing in flight and are discarded - with a round trip that is a multiple of retx_threshold passes a loss-free connection aborts with TimedOut")
+    ctx.floor(R, 2)
+
+
+def _same_arm(b, x, y):
+    """x and y lie on the same side of every two-way branch: neither is reachable from the other's sibling edge only"""
+    return b.dominated_by_block(x, y) or b.dominated_by_block(y, x)
+
+
 def run(ctx):
+    r18(ctx)
     r17(ctx)
     C13.r1(ctx)    # an orphan waiting for the peer's FIN (FIN_WAIT2) stays in the table: reaping it early answers that FIN with a RST, which wipes what the peer has not read yet
     r16(ctx)
